@@ -339,8 +339,12 @@ def rule_h2(repo, chk):
         if n.kind == 'stmt' and isinstance(n.ast, ast.Return):
             return 'kept'
         return None
-    bad = decision_table(f, heads[0], [('is_it', 'p == %s' % tv[0]), ('below', '%s in p.parents' % tv[0])], label,
-                         lambda fc: 'moved' if fc['is_it'] or fc['below'] else '<loop>')
+    if any(isinstance(x, ast.Call) and isinstance(x.func, ast.Attribute) and x.func.attr == 'is_relative_to' for x in ast.walk(f)):
+        # pathlib's own spelling of "is the path or lies below it"
+        bad = decision_table(f, heads[0], [('rel', 'p.is_relative_to(%s)' % tv[0])], label, lambda fc: 'moved' if fc['rel'] else '<loop>')
+    else:
+        bad = decision_table(f, heads[0], [('is_it', 'p == %s' % tv[0]), ('below', '%s in p.parents' % tv[0])], label,
+                             lambda fc: 'moved' if fc['is_it'] or fc['below'] else '<loop>')
     chk.ob('C07.h', not bad, heads[0].ast, 'a changed file is announced under the new location exactly when the renamed path is the file itself or ANY of its '
            'ancestor directories (every depth below a renamed package moves with it)', '; '.join(bad[:3]), key='to-path-table')
 
